@@ -344,6 +344,8 @@ func (l *websocketTransportListener) ServeHTTP(writer http.ResponseWriter, reque
 
 	select {
 	case <-l.done:
+		// nobody is going to accept it anymore (the http server does not know hijacked connections)
+		_ = conn.Close()
 	case l.connChan <- conn:
 	}
 }
